@@ -176,6 +176,7 @@ STR_OF = z3.Function("STR_OF", z3.IntSort(), z3.StringSort())   # are beyond z3'
 
 
 RSTRIPCH = z3.Function("RSTRIPCH", z3.StringSort(), z3.StringSort(), z3.StringSort())      # str.rstrip(chars)
+STRJOIN = z3.Function("STRJOIN", z3.StringSort(), z3.SeqSort(z3.IntSort()), z3.StringSort())      # sep.join(list of interned strings)
 PATH_JOIN = z3.Function("PATH_JOIN", z3.StringSort(), z3.StringSort(), z3.StringSort())     # pathlib.PurePath.__truediv__ on string forms
 
 
